@@ -253,6 +253,10 @@ package consensus
 //@ func BaseWAL.SearchForEndHeight
 //@   ensures found: result1 ==> (result2 == nil && result0 != nil && m.Height == height)
 //@   ensures none: !result1 ==> result0 == nil
+// The search may give up before the oldest file only on evidence that older files cannot hold the height: an END-HEIGHT
+// record for a smaller height that is not the bootstrap record - OnStart writes END-HEIGHT 0 into every empty head, so a
+// 0 can follow any height (a rotation followed by a restart) and proves nothing about older files.
+//@   ensures early: (!result1 && result2 == nil && index >= min) ==> (0 < lastHeightFound && lastHeightFound < height)
 //@   loop 1 invariant t: true
 //@   loop 2 invariant t: true
 
